@@ -49,7 +49,8 @@ end
 def langOf : String → Lang
   | "ts" => .ts | "rs" => .rs | _ => .py
 def wrapOf : String → Wrap
-  | "method" => .method | "arrow" => .arrow | "async" => .asyncFn | _ => .plain
+  | "method" => .method | "arrow" => .arrow | "async" => .asyncFn
+  | "funcExpr" => .funcExpr | "generator" => .generator | "underIf" => .underIf | "inner" => .inner | _ => .plain
 
 mutual
   partial def Py.sexp : Py → String
